@@ -55,6 +55,7 @@ pub fn random_valid(rng: &mut Rng, max_val: usize, nested_ok: bool) -> RefMsg {
         0 => 0,
         1 => 1,
         2 => 18,
+        3 | 4 => rng.range(0, 18),
         _ => rng.range(2, 8),
     } as usize;
     let mut idx: Vec<usize> = (0..18).collect();
